@@ -674,7 +674,7 @@ fn subjects(cli: &Cli) -> Vec<(Lifecycle, usize, u32)> {
     let all = vec![StartAndAwait, StopAndAwait, AwaitStop, AwaitStartOrStop, WhileStarted, WaitStoppingOrStopped];
     match cli.tier {
         Tier::Quick => vec![(Lifecycle { max_clients: 3, kinds: all, with_drop: true }, 9, 2)],
-        Tier::Thorough => vec![(Lifecycle { max_clients: 3, kinds: all, with_drop: true }, 14, 3)],
+        Tier::Thorough => vec![(Lifecycle { max_clients: 3, kinds: all, with_drop: true }, 15, 3)],
     }
 }
 
